@@ -39,17 +39,23 @@ def make_pair(state, decimals=(6, 18)):
     t0 = STATES[state] + shift
     closes = [t0, t0 + 7, t0 - 260, t0 + 3]
     vol_q, vol_b = 5 * 10**(decimals[0] + 3), 2 * 10**decimals[1]
+    # per-bar flow pattern: both tokens paid in, then (depending on the state) a bar with quote-token inflow only and one with base-token inflow only
+    one_way_first = list(STATES).index(state) % 2 == 0
+    pat_q = [1, 1, 0, 1] if one_way_first else [1, 1, 1, 0]
+    pat_b = [1, 0, 1, 1] if one_way_first else [1, 1, 0, 1]
+    vq = [vol_q * x * (i + 1) for i, x in enumerate(pat_q)]
+    vb = [vol_b * x * (i + 1) for i, x in enumerate(pat_b)]
     out = []
     for orient in ("q0", "q1"):
         if orient == "q0":
             pool = UniV3Pool(qt, bt, 0.05, qt)
             ticks = list(closes)
-            in0, in1 = vol_q, vol_b
+            in0, in1 = vq, vb
             rng = {k: (a + shift, b + shift) for k, (a, b) in RANGES0.items()}
         else:
             pool = UniV3Pool(bt, qt, 0.05, qt)
             ticks = [-t for t in closes]
-            in0, in1 = vol_b, vol_q
+            in0, in1 = vb, vq
             rng = {k: (-(b + shift), -(a + shift)) for k, (a, b) in RANGES0.items()}
         raw = uni.raw_frame(ticks, in0, in1, 4 * 10**16, open_tick=ticks[0])
         data = uni.prepared(raw, pool)
